@@ -64,7 +64,9 @@ func FindDirectory(r io.ReaderAt, size int64) (int64, error) {
 	}
 	if end.TotalCDCount == uint16Max || end.CDSize == uint32Max || end.CDOffset == uint32Max {
 		if loc64.Signature != directory64LocSignature {
-			return 0, errors.New("expected ZIP64 locator")
+			// no ZIP64 records, so the fields are literal values that happen to
+			// equal the marker, e.g. an archive of exactly 65535 entries
+			return int64(end.CDOffset), nil
 		}
 		// ZIP64
 		var end64b [directory64EndLen]byte
